@@ -808,3 +808,16 @@ Qed.
 
 Corollary reachable_wf : forall cs, server_wf (fst (run [] cs)).
 Proof. intros cs. apply run_wf. split; [constructor|]. intros n t H. discriminate. Qed.
+
+(* ------------------------------------------------------------------ *)
+(* C17: the row store seen through update_row / get_row                *)
+(* ------------------------------------------------------------------ *)
+Lemma get_row_update t k fs k' : asorted (t_rows t) ->
+  get_row (update_row t k fs) k' = if beqb k' k then scrub_fams (t_fams t) fs else get_row t k'.
+Proof.
+  intros H. unfold get_row. rewrite update_row_lookup; auto. destruct (beqb k' k); auto.
+  destruct (scrub_fams (t_fams t) fs); reflexivity.
+Qed.
+
+Corollary reachable_rows_sorted : forall cs n t, alookup n (fst (run [] cs)) = Some t -> asorted (t_rows t).
+Proof. intros cs n t H. destruct (reachable_wf cs) as [_ G]. destruct (G n t H) as [G1 _]. exact G1. Qed.
